@@ -1031,7 +1031,7 @@ class Footnote(BlockToken):
     def append_footnotes(matches, root):
         for key, dest, title, *_ in matches:
             key = normalize_label(key)
-            dest = span_token.EscapeSequence.strip(dest.strip())
+            dest = span_token.EscapeSequence.strip(dest)
             title = span_token.EscapeSequence.strip(title)
             if key not in root.footnotes:
                 root.footnotes[key] = dest, title
